@@ -43,6 +43,9 @@ type Variable struct {
 
 	ValueNode model.ValueNode
 	Value     reflect.Value
+
+	// snapshot is the result of GetSnapshot, kept by the working memory once the node is registered there
+	snapshot string
 }
 
 // MakeCatalog create a catalog entry for this AST Node
@@ -140,6 +143,10 @@ func (e *Variable) GetGrlText() string {
 
 // GetSnapshot will create a structure signature or AST graph
 func (e *Variable) GetSnapshot() string {
+	if len(e.snapshot) > 0 {
+
+		return e.snapshot
+	}
 	var buff strings.Builder
 	buff.WriteString(VARIABLE)
 	buff.WriteString("(")
